@@ -260,7 +260,7 @@ def eval_a_py(p, f, s, guard_on=False):
     """Python-API part of campaign (a) for one (pattern, flags, subject). -> (violations, info)"""
     kind, detail, cpu, re_obj, polls = py_construct(p, f)
     viol = [(sig, {"sub": "A", "entry": "py", "p": p, "f": f}, e, a) for sig, e, a in judge_construct_py(p, f, kind, detail, cpu, re_obj)]
-    info = {"py": kind, "cpu": cpu, "size": len(getattr(re_obj, "_bytecode", ())) if re_obj is not None else None}
+    info = {"py": kind, "cpu": cpu, "size": len(getattr(re_obj, "_bytecode", None) or ()) if re_obj is not None else None}
     if kind == "ok" and s is not None and guard_on and G.has_lookaround(p):
         info["excluded"] = KNOWN_LOOKAROUND
     elif kind == "ok" and s is not None:
@@ -439,7 +439,7 @@ def _rejudge_a(case):
             return [("A|py-exec|exception %s at %s" % (out[1][1], out[1][3]), "match, null, RegexStackOverflow or RegexTimeoutError", out[1])]
         if out[0] in ("cpu", "budget"):
             return [("A|py-exec|steps beyond (len+1)*step_limit", ["polls<=", limit], [out[0], npolls])]
-        size = len(getattr(re_obj, "_bytecode", ())) or None
+        size = len(getattr(re_obj, "_bytecode", None) or ()) or None
         if out[0] == "stack" and not stack_error_legit(len(case.get("s", "")), size):
             return [("A|py-exec|stack budget exhausted on a short subject (empty loop spins)", "match or null", ["RegexStackOverflow", "len", len(case.get("s", "")), "program", size])]
         return []
@@ -579,7 +579,7 @@ def b_eval(case):
     out = {"L": L, "prog": None}
     try:
         with cpu_alarm(CONSTRUCT_ALARM_S):
-            out["prog"] = len(rx.RegExp(case["pat"], case["flags"])._bytecode)
+            out["prog"] = len(getattr(rx.RegExp(case["pat"], case["flags"]), "_bytecode", None) or ())
     except BaseException:  # noqa - construction is judged by campaign (a)
         pass
     rss0 = _maxrss()
